@@ -1,13 +1,13 @@
 //! C13 (E1 part) — (b) all histories of runs sharing one dump folder and one data directory, BFS depth 3;
 //! (c) free-running conformance of the schedule explorer's outcome set with the real rayon (sampling, labelled).
 use crate::gen::dependent_chain;
-use crate::hx::Worker;
+use crate::hx::{replay_case, Worker};
 use crate::oracle::*;
 use refmodel::chain::{coinbase, pay, ChainBuilder, COIN_VALUE};
 use refmodel::coins::coin;
 use refmodel::ev::{h8, is_thorough, par_fold, Report};
 use refmodel::hash::sha256;
-use refmodel::run::{read_dir_files, RunSpec};
+use refmodel::run::{read_dir_files, RunResult, RunSpec};
 use refmodel::ser::{hex, Tx, TxIn};
 use refmodel::world::{dump_index, World};
 use serde_json::json;
@@ -246,8 +246,84 @@ pub fn run() -> Report {
         rep.merge(p);
     }
     conformance(&mut rep, &root);
+    invocation_forms(&mut rep, &root);
     let _ = std::fs::remove_dir_all(&root);
     rep
+}
+
+/// "... a function of the data directory and the options only": the same directory and options named in different ways and
+/// run in different process environments. Full product callback (5) x range {whole, -s 1 -e 2} x --verify {off, on} x path
+/// form (absolute / relative / trailing slash / dot components / symbolic links / cwd inside the data directory) x environment
+/// (plain, RAYON_NUM_THREADS unset, a non-English UTF-8 locale with TZ set, a long unrelated argument-free environment).
+/// Compared with the absolute-path plain-environment run: exit status, every file of the dump folder, and the
+/// simplestats / opreturn output (log lines that print a path are dropped).
+fn invocation_forms(rep: &mut Report, root: &std::path::Path) {
+    let btc = coin("bitcoin");
+    let chain = dependent_chain(btc, 0, 4);
+    let mut world = World::simple(btc, &chain.blocks, 0);
+    world.xor_key = Some(vec![0x5a, 0x11, 0xc3, 0x07, 0x99, 0xe0, 0x3c, 0x42]);
+    let mut cases = Vec::new();
+    for cbn in ["csvdump", "unspentcsvdump", "balances", "simplestats", "opreturn"] {
+        for range in [(None, None), (Some(1u64), Some(2u64))] {
+            for verify in [false, true] {
+                cases.push((cbn, range, verify));
+            }
+        }
+    }
+    let essential = |r: &RunResult| -> serde_json::Value {
+        let lines: Vec<String> = refmodel::run::strip_time(&r.stdout).lines().filter(|l| !(l.contains("Reading index from") || l.contains("Reading files from") || l.contains("with dump folder") || l.contains("blockchain dir") || l.contains("Starting rusty-blockparser"))).map(|l| l.to_string()).collect();
+        let files: BTreeMap<String, String> = r.files.iter().map(|(k, v)| (k.clone(), refmodel::ser::hex(&refmodel::hash::sha256(&canon(k, v))))).collect();
+        json!({"exit": r.code, "signal": r.signal, "files": files, "stdout": lines})
+    };
+    let envs: Vec<(&str, Vec<(&str, &str)>, u32)> = vec![
+        ("plain", vec![], 2),
+        ("RAYON_NUM_THREADS unset", vec![], 0),
+        ("tr_TR locale, TZ", vec![("LC_ALL", "tr_TR.UTF-8"), ("LANG", "tr_TR.UTF-8"), ("TZ", "Pacific/Kiritimati")], 2),
+        ("RUST_LOG and COLUMNS set", vec![("RUST_LOG", "trace"), ("COLUMNS", "20"), ("NO_COLOR", "1"), ("TERM", "dumb")], 2),
+    ];
+    let parts = par_fold(
+        &cases,
+        || Report::new("C13", "e1"),
+        |w, _i, (cbn, range, verify), acc| {
+            let wk = Worker::new(root, 300 + w);
+            if let Err(m) = wk.materialise(&world) {
+                return acc.machinery(m);
+            }
+            let base_spec = RunSpec::new("bitcoin", cbn).range(range.0, range.1).verify(*verify);
+            let r0 = wk.run(&base_spec);
+            let reference = essential(&r0);
+            if r0.code != Some(0) {
+                acc.count("note:reference-invocation-failed", 1);
+            }
+            for form in 0..6u8 {
+                for (ename, evars, threads) in &envs {
+                    if form == 0 && *ename == "plain" {
+                        continue;
+                    }
+                    let mut spec = base_spec.clone();
+                    spec.threads = *threads;
+                    spec.env.push(("VERIF_PATH_FORM".into(), form.to_string()));
+                    for (k, v) in evars {
+                        spec.env.push((k.to_string(), v.to_string()));
+                    }
+                    let r = wk.run(&spec);
+                    acc.states += 1;
+                    acc.transitions += 1;
+                    acc.count("invocation-form-runs", 1);
+                    acc.nontrivial.insert(h8(format!("{}{:?}{}{}{}", cbn, range, verify, form, ename).as_bytes()));
+                    let o = essential(&r);
+                    if o != reference {
+                        let what = if o["exit"] != reference["exit"] { "exit-status" } else if o["files"] != reference["files"] { "dump-files" } else { "printed-output" };
+                        acc.disagree(&format!("invocation-form:{}-differs", what), format!("{} range {:?} verify {} path form {} env '{}': {} vs absolute-path plain run {}", cbn, range, verify, form, ename, o.to_string().chars().take(300).collect::<String>(), reference.to_string().chars().take(300).collect::<String>()), replay_case(&world, &spec, json!({"must equal": "the run with absolute paths and the plain environment"}), &r, &wk.dir));
+                        return;
+                    }
+                }
+            }
+        },
+    );
+    for p in parts {
+        rep.merge(p);
+    }
 }
 
 /// Free-running pass against the real rayon (sampling; labelled as such in the evidence): blocks with hundreds of
@@ -277,6 +353,15 @@ fn conformance(rep: &mut Report, root: &std::path::Path) {
             Tx { version: 1, segwit: false, inputs: vec![TxIn::spend([0xee; 32], 9001)], outputs: same, locktime: 0 },
         ]);
     }
+    {
+        // more transactions than any plausible "go parallel from here" threshold (1024, 4096): the csvdump runs carry --verify
+        let h = cb.next_height();
+        let mut txs = vec![coinbase(h, 1, vec![pay(1, 50 * COIN_VALUE)])];
+        for t in 0..4500usize {
+            txs.push(Tx { version: 1, segwit: false, inputs: vec![TxIn::spend([0xed; 32], t as u32)], outputs: vec![pay((t % 250) as u8, 1 + t as u64)], locktime: t as u32 });
+        }
+        cb.push(txs);
+    }
     let world = World::simple(btc, &cb.blocks, 0);
     let all = cb.mblocks();
     let tip = all.len() as u64 - 1;
@@ -296,9 +381,12 @@ fn conformance(rep: &mut Report, root: &std::path::Path) {
             return rep.machinery(m);
         }
         for cbn in ["csvdump", "simplestats", "opreturn", "unspentcsvdump", "balances"] {
-            let mut spec = RunSpec::new("bitcoin", cbn);
+            let mut spec = RunSpec::new("bitcoin", cbn).verify(cbn == "csvdump");
             spec.threads = 1;
             let r = wk.run(&spec);
+            if r.code != Some(0) {
+                rep.machinery(format!("conformance: the single-thread reference run of {} failed: {}", cbn, r.stderr.lines().next().unwrap_or("")));
+            }
             reference.insert(cbn, crate::hx::observe(&r, &wk.dir));
             let bad = match cbn {
                 "csvdump" => check_csvdump(&r, btc, &all, 0, tip),
@@ -320,7 +408,7 @@ fn conformance(rep: &mut Report, root: &std::path::Path) {
             if let Err(m) = wk.materialise(&world) {
                 return acc.machinery(m);
             }
-            let mut spec = RunSpec::new("bitcoin", cbn);
+            let mut spec = RunSpec::new("bitcoin", cbn).verify(*cbn == "csvdump");
             spec.threads = *threads;
             let r = wk.run(&spec);
             *acc.counters.entry("free_running_real_rayon_runs".into()).or_insert(0) += 1;
